@@ -34,6 +34,8 @@ EXTENDS Integers, FiniteSets, TLC
 
 CONSTANTS MaxCount,     \* shard counts l, r range over 1..MaxCount
           HashPeriods,  \* hash residues 0 .. HashPeriods*L - 1 are enumerated for the consistency clause
+          FviExcl,      \* FALSE = the code as it is; TRUE = a seeded design error: the failover-version-increment override
+                        \* and the shard-count override are alternatives of one switch (cfg lcm_fviexcl.cfg must be violated)
           SwapDirs      \* FALSE = the code as it is; TRUE = a seeded design error (directions exchanged), used to
                         \* demonstrate that the invariants can fail (cfg lcm_swapped.cfg must report a violation)
 
@@ -88,10 +90,19 @@ vars == <<l, r, res>>
 Counts == 1..MaxCount
 Init == /\ l \in Counts /\ r \in Counts /\ res = [op |-> "config"]
 
-\* adminServiceProxyServer.DescribeCluster, mode lcm: resp.HistoryShardCount = s.lcmParameters.LCM
+\* adminServiceProxyServer.DescribeCluster, mode lcm: resp.HistoryShardCount = s.lcmParameters.LCM; then, independently,
+\* the FailoverVersionIncrement override of this server (NewClusterConnection: inbound server gets
+\* FVITranslation.Local, outbound server FVITranslation.Remote; 0 = not configured).  fl, fr: the configured translation.
+RawFvi == 100
+FviValues == {0, 10, 20}
+CodeFviOverride(fl, fr, dir) == IF dir = "inbound" THEN fl ELSE fr
 Describe(dir) ==
-  /\ res' = [op |-> "describe", dir |-> dir, reported |-> CodeLcmParameters(l, r, dir).lcm]
-  /\ UNCHANGED <<l, r>>
+  \E fl \in FviValues, fr \in FviValues :
+    LET ov == CodeFviOverride(fl, fr, dir) IN
+    /\ res' = [op |-> "describe", dir |-> dir, fl |-> fl, fr |-> fr,
+               reported |-> IF FviExcl /\ ov # 0 THEN Count(l, r, dir) ELSE CodeLcmParameters(l, r, dir).lcm,
+               fvi |-> IF ov # 0 THEN ov ELSE RawFvi]
+    /\ UNCHANGED <<l, r>>
 
 \* handleStream, case ShardCountLCM: client shard := the LCM shard id, server shard := mapShardIDUnique(LCM, target, s)
 OpenStream(dir, s) ==
@@ -112,8 +123,11 @@ ArithOK == res.op = "config" =>
            /\ CodeLCM(l, r) = Lcm(l, r) /\ CodeLCM(r, l) = Lcm(l, r)
            /\ Divides(l, Lcm(l, r)) /\ Divides(r, Lcm(l, r))
            /\ \A m \in 1..(Lcm(l, r) - 1) : ~(Divides(l, m) /\ Divides(r, m))
-\* both directions report the least common multiple
+\* both directions report the least common multiple, whatever else the response translation is configured to do
 ReportedOK == res.op = "describe" => res.reported = Lcm(l, r)
+\* the failover version increment is the configured translation of that side, else the cluster's own
+FviOK == res.op = "describe" =>
+           res.fvi = (LET ov == IF res.dir = "inbound" THEN res.fl ELSE res.fr IN IF ov # 0 THEN ov ELSE RawFvi)
 \* no LCM shard id panics or maps outside 1..count of the serving cluster
 InRange == res.op = "stream" => res.server # Panic /\ res.server \in 1..Count(l, r, res.dir)
 \* the LCM shard id is passed on as the initiator's shard id
